@@ -590,6 +590,10 @@ def _same_bits(a, b):
     return a.unit == b.unit and a.dtype == b.dtype and dict(a.sizes) == dict(b.sizes) and np.array_equal(a.transpose(list(b.dims)).values, b.values, equal_nan=True)
 
 
+def _customised_node(two_theta):
+    return two_theta * 0.0
+
+
 def _run_graph(case, rec):
     origin, node = case['origin'], case['node']
     inputs = _graph_inputs(case['unit_set'], case['mode'])
@@ -600,6 +604,24 @@ def _run_graph(case, rec):
     rec.validated += 1
     rec.nontrivial += 1
     rec.observe(got.values.tobytes().hex())
+    # the top-level conversion takes the same route, also after a graph reported for the same arguments (which belongs
+    # to the caller) has been customised
+    import scippneutron as scn
+
+    needed = {'tof': ['tof', 'Ltotal', 'two_theta'], 'energy': ['energy', 'two_theta'], 'wavelength': ['wavelength', 'two_theta'], 'Q': ['Q', 'two_theta']}[origin]
+    da = sc.DataArray(sc.ones(dims=['pixel', 'tof'], shape=[2, 3]), coords={k: inputs[k] for k in needed})
+    for attempt in ('first', 'after_customising_a_reported_graph'):
+        rec.transitions += 1
+        via = scn.convert(da, origin=origin, target=node, scatter=True).coords[node]
+        rec.validated += 1
+        if via.unit != want.unit or via.dtype != want.dtype or np.asarray(via.values).tobytes() != np.asarray(want.transpose(['pixel', 'tof'] if want.ndim == 2 else want.dims).values).tobytes():
+            rec.viol('core.convert', 'route_differs_from_kernel', f"convert({origin} -> {node}) ({attempt}) gives {via.values.ravel()[:3]} [{via.unit}]; the kernel gives {want.values.ravel()[:3]} [{want.unit}]", origin=origin, node=node, attempt=attempt)
+            break
+        reported = scn.deduce_conversion_graph(da, origin=origin, target=node, scatter=True)
+        for k in list(reported):
+            reported[k] = _customised_node
+    else:
+        rec.cls('convert_route_bitwise')
     if _same_bits(got, want):
         rec.cls('graph_bitwise')
     else:
